@@ -128,6 +128,8 @@ impl Property for C11 {
         let mut samples = 0u64;
         let mut questionable_then_good = 0u64;
         let mut purged = 0u64;
+        let mut absent_streak: BTreeMap<SocketAddr, u32> = BTreeMap::new();
+        let mut transient_absences = 0u64;
         let findings_cell = std::cell::RefCell::new(&mut findings);
         run_model(
             sc,
@@ -142,8 +144,21 @@ impl Property for C11 {
                         seen.entry(*a).or_insert(t);
                     }
                     if let Some(t0) = seen.get(a) {
+                        // Two queries in flight to a questionable contact (refresh + re-bootstrap ping
+                        // within one RTT) make it "two unanswered queries while not good" until the
+                        // first answer lands — C10 says such a contact is not reported until it answers.
+                        // That transient (< 1 RTT) is not a loss: a contact is lost when it is missing
+                        // at two consecutive samples (sampling period > RTT).
                         if !rep_good && !rep_q {
-                            findings_cell.borrow_mut().push(("responsive_contact_lost", t, format!("{a} always answers, was in the contacts since {t0} ms, but is reported neither good nor questionable at {t} ms")));
+                            let c = absent_streak.entry(*a).or_insert(0u32);
+                            *c += 1;
+                            if *c >= 2 {
+                                findings_cell.borrow_mut().push(("responsive_contact_lost", t, format!("{a} always answers, was in the contacts since {t0} ms, but is reported neither good nor questionable at two consecutive samples up to {t} ms")));
+                            } else {
+                                transient_absences += 1;
+                            }
+                        } else {
+                            absent_streak.remove(a);
                         }
                         if !rep_good {
                             let since = *notgood_since.entry(*a).or_insert(t);
@@ -199,6 +214,9 @@ impl Property for C11 {
         if purged > 0 {
             v.hit("silent_contact_purged");
         }
+        if transient_absences > 0 {
+            v.hit_n("transient_absence_while_answers_in_flight", transient_absences);
+        }
         if sc.param("big") != 0 {
             v.hit("more_than_8_contacts_variant");
         }
@@ -216,7 +234,7 @@ impl Property for C11 {
         "one real node (serving or read-only), 1..8 stub contacts (1 in 5 runs: 10..16 contacts spread over prefix depths so that no bucket fills), loss-free, 1..6 virtual hours; each contact always answers or goes silent at a drawn time (or never answers); contacts name each other all the time or only by a drawn subset; single bootstrap contact or all listed; with and without interleaved searches; load_contacts sampled every 2.3..4.9 s, a find_node probe every 61 s. non-trivial = more than 100 samples and at least one always-answering contact admitted; distinct = distinct order digests"
     }
     fn assumptions(&self) -> Vec<&'static str> {
-        vec!["the 30 s freshness bound is the statement's for 1..8 contacts; for the 10..16-contact variant it is 6 s per 4 contacts + 30 s, which is what the statement's mechanism gives outside its range", "silent-contact deadline = max(last accepted answer + 20 min, last naming + 5 min) plus one RTT and one sampling period"]
+        vec!["the 30 s freshness bound is the statement's for 1..8 contacts; for the 10..16-contact variant it is 6 s per 4 contacts + 30 s, which is what the statement's mechanism gives outside its range", "a responsive contact counts as lost when it is missing at two consecutive samples (a single miss can be the sub-RTT state in which two pings are in flight, which C10 defines as not reported)", "silent-contact deadline = max(last accepted answer + 20 min, last naming + 5 min) plus one RTT and one sampling period"]
     }
     fn required_reach(&self) -> Vec<&'static str> {
         vec!["turned_questionable_then_good_again", "silent_contact_purged", "more_than_8_contacts_variant", "single_bootstrap_contact", "three_hours_or_more"]
